@@ -371,12 +371,16 @@ def run_rel(inp):
                     order = r if order is None else min(order, r)
                 else:
                     braid = max(braid, r)
+    # the inverse generator the Representation stores next to each generator (upper-case name) must be its inverse
+    xn = rep_names(inp)[1]
+    invres = max(float(np.max(np.abs(np.asarray(rep.generators[g.upper()], dtype=float) @ gens[i] - np.eye(n))))
+                 for i, g in enumerate(xn))
     dets = [float(np.linalg.det(g)) for g in gens]
     # each generator fixes a hyperplane pointwise: g - 1 has rank one
     sv = [np.linalg.svd(g - np.eye(n), compute_uv=False) for g in gens]
     rank1 = max(float(s[1] / s[0]) if len(s) > 1 else 0.0 for s in sv)
     return {"M": M.tolist(), "gens": [g.tolist() for g in gens], "invol": inv, "braid": braid, "order": order,
-            "scale": scale, "dets": dets, "rank1": rank1}
+            "scale": scale, "dets": dets, "rank1": rank1, "invres": invres}
 
 
 def lean_rel(inp, obs):
@@ -415,6 +419,9 @@ def judge_rel(inp, obs, lr):
     if max(obs["braid"], ebr) > tol:
         return {"expected": "(s_i s_j)^m = 1 for every finite label m", "observed": {"numpy": obs["braid"], "exact": ebr},
                 "tags": {**tags, "relation": "braid"}}
+    if obs["invres"] > tol:
+        return {"expected": "rep.generators[G] (inverse generator) * rep.generators[g] = 1", "observed": obs["invres"],
+                "tags": {**tags, "relation": "inverse-generator"}}
     if kind in ("canon", "canondiag") and eord is not None and min(eord, obs["order"]) < 0.05:
         return {"expected": "s_i s_j has order exactly m in the canonical representation",
                 "observed": {"min_k<m |P^k-1|": eord}, "tags": {**tags, "relation": "order"}}
